@@ -119,7 +119,8 @@ class LoopSpec:
     unroll             -> int: unroll that many times instead of cutting (concrete bound)
     """
     def __init__(self, inv=None, havoc=None, decreases=None, carried=None, index=None,
-                 frame=None, step=None, on_head=None, on_init=None, keep=(), target_after='last', on_break=None, on_exit=None):
+                 frame=None, step=None, on_head=None, on_init=None, keep=(), target_after='last', on_break=None, on_exit=None, abstract=None):
+        self.abstract = abstract    # abstract(I, env): the loop is not executed; the spec sets the state after it (assumed, never proved)
         self.on_break = on_break    # on_break(I, env, k) -> obligations checked when the body leaves the loop with `break`
         self.on_exit = on_exit      # on_exit(I, env, n) -> obligations checked when the loop ends normally after n iterations
         self.keep = tuple(keep)     # loop-carried locals that deliberately keep their pre-loop (symbolic) value
@@ -2321,6 +2322,11 @@ class Interp:
         fq = self.frame.qualname
         idxname = spec.index or f'__k{ordinal}'
         tag = f'{fq}/loop{ordinal}'
+        if getattr(spec, 'abstract', None):
+            # the loop is NOT verified: it is replaced by the state the spec describes (an assumption the contract must declare)
+            spec.abstract(self, env)
+            e.note(f'assumed (loop abstracted, body not verified): {tag}')
+            return
         body_names = assigned_names(s.body) + (assigned_names([ast.Assign(targets=[s.target], value=ast.Constant(0))])
                                                if isinstance(s, ast.For) else [])
         def inv_items(k):
